@@ -292,6 +292,9 @@ def hints(draw, pat, force_form=None):
     d = ppos[:, None] - ppos[None]
     dd = (d ** 2).sum(-1)
     if form == "op":
+        # with an automatic axis the orientation hint is only well-defined when the farthest pair is unique
+        if int((dd >= dd.max() - 1e-6).sum()) > 2:
+            return [None, None, None], "none"
         ap1, ap2 = np.unravel_index(np.argmax(dd), dd.shape)
     else:
         ap1 = first
@@ -338,7 +341,8 @@ DECOYS = ["near-miss", "mirror", "element", "loose", "loose"]
 @st.composite
 def planted(draw, max_copies=4, pattern_classes=None, cell_classes=None, with_decoys=True, with_hints=True,
             atols=None, min_width_extra=0.0, width_factor=1.0, max_atoms=6, min_atoms=1, tightness=None,
-            pose_classes=None, noise_levels=(0.0, 1 / 64.0, 1 / 32.0), min_copies=1, pat=None, extra_diam=None):
+            pose_classes=None, noise_levels=(0.0, 1 / 64.0, 1 / 32.0), min_copies=1, pat=None, extra_diam=None,
+            decoy_kinds=None, bystanders=0):
     """a periodic structure with planted copies of a pattern.  Returns a JSON-able case dict:
     cell, spos, sels, ppos, pels, atol, hints, seeds, meta"""
     atol = draw(st.sampled_from(atols or ATOLS))
@@ -377,7 +381,7 @@ def planted(draw, max_copies=4, pattern_classes=None, cell_classes=None, with_de
         for _ in range(nd):
             if len(spos) + n > n_max:
                 break
-            kind = draw(st.sampled_from(DECOYS))
+            kind = draw(st.sampled_from(decoy_kinds or DECOYS))
             R, _ = draw(pose(ppos, classes=["random", "axis"]))
             af, _ = draw(anchor_frac())
             if kind == "loose" or n == 1:
@@ -404,6 +408,12 @@ def planted(draw, max_copies=4, pattern_classes=None, cell_classes=None, with_de
             spos += w.tolist()
             sels += els
             decoys.append(kind)
+    nby = draw(st.integers(min(1, bystanders), bystanders)) if bystanders else 0
+    for _ in range(nby):
+        # bystanders of elements that occur in no pattern: they can be part of no match
+        f = [draw(st.floats(0, 0.999)) for _ in range(3)]
+        spos.append(geom.cart(cell, f).tolist())
+        sels.append(draw(st.sampled_from(["Zr", "Cu", "S"])))
     seeds = [draw(st.integers(0, 2 ** 31 - 1)), draw(st.integers(0, 2 ** 31 - 1))]
     meta = dict(cmeta)
     meta.update({"pattern_cls": pat["cls"], "copies": copies, "decoys": decoys, "hint_form": hform})
